@@ -22,9 +22,9 @@ from typing import Any
 # tables
 
 
-def P(n, ann, pool, default=None, compare=True, init=True, kw_only=False):
+def P(n, ann, pool, default=None, compare=True, init=True, kw_only=False, derived=False):
     return dict(n=n, kind="prop", ann=ann, pool=pool, default=default, compare=compare, init=init,
-                kw_only=kw_only)
+                kw_only=kw_only, derived=derived)
 
 
 def C(n, kind, allowed, ann, default=None):
@@ -100,6 +100,13 @@ BASIC = {
         dict(name="FUnary", base="Unary", fields=[], body="def __bool__(self):\n        return False\n"),
         # a subclass of a child-less class that adds a child field (per-class caches must not be inherited)
         dict(name="KLeaf", base="Leaf", fields=[C("kid", "opt", ["ASTNode"], "ASTNode | None", default="None")]),
+        # a field that is neither an init argument nor comparable, filled in by the class's own __post_init__ from a
+        # non-comparable argument before the node is set up (a cache): it must stay out of id and content_id
+        dict(name="Cachey", base="ASTNode", special=True, fields=[
+            P("a", "str", "str"),
+            P("note", "str", "str", default="''", compare=False),
+            P("memo", "str", "str", default="''", compare=False, init=False, derived=True),
+        ], body="def __post_init__(self):\n        object.__setattr__(self, 'memo', self.note)\n        super().__post_init__()\n"),
         # slotted models ("subclasses may be slotted"): @dataclass(slots=True) builds the class twice
         dict(name="SLeaf", base="ASTNode", slots=True, fields=[P("a", "str", "str")]),
         dict(name="SUnary", base="ASTNode", slots=True, fields=[C("child", "one", ["ASTNode"], "ASTNode")]),
@@ -145,7 +152,9 @@ class ZooInfo:
         self.zoo = zoo
         self.name = zoo["name"]
         self.cls = {c["name"]: c for c in zoo["classes"]}
-        self.order = [c["name"] for c in zoo["classes"]]
+        self.all_order = [c["name"] for c in zoo["classes"]]
+        # classes marked special are used only where a profile names them (random generators draw from `order`)
+        self.order = [c["name"] for c in zoo["classes"] if not c.get("special")]
 
     def base(self, c: str) -> str:
         return self.cls[c]["base"]
@@ -162,7 +171,7 @@ class ZooInfo:
         return d in self.mro(c)
 
     def subclasses(self, d: str) -> list[str]:
-        return [c for c in self.order if self.is_sub(c, d)]
+        return [c for c in self.all_order if self.is_sub(c, d)]
 
     def fields(self, c: str) -> list[dict]:
         """All user fields in dataclass order: inherited first, an override keeps its original slot."""
@@ -195,7 +204,7 @@ class ZooInfo:
         out = []
         for a in al:
             if a == "ASTNode":
-                out.extend(self.order)
+                out.extend(self.all_order)
             else:
                 out.extend(self.subclasses(a))
         seen = []
@@ -303,7 +312,7 @@ def _tla_rec(pairs) -> str:
 
 def render_tla(zoo: dict, module: str = "Zoo", classes: list[str] | None = None) -> str:
     zi = ZooInfo(zoo)
-    order = classes or zi.order
+    order = classes or zi.all_order
     L = [f"---- MODULE {module} ----",
          f"\\* GENERATED from the zoo table `{zoo['name']}` by harness/zoo.py -- do not edit",
          "EXTENDS TLC, Sequences, Naturals", ""]
